@@ -65,7 +65,7 @@ def scopes(tier):
                     N0=5, A1=(3, 5), A2_inferred="edge",
                     A2=[((2, 2), 3, "all"), ((3, 3), 2, "edge"), ((2, 3), 2, "all"), ((3, 2), 2, "all")],
                     A3=[((2, 2, 2), 2, "all"), ((2, 3, 2), 2, "some")],
-                    BN=3, BN2=2, Bcommons=(0, 1, 2), Bgrid_under_array_weights=GRID)
+                    BN=3, BN2=2, Bcommons=(0, 2), Bgrid_under_array_weights=GRID)
     return dict(fact_forms=FACT_FORMS_QUICK, xdtypes=XDTYPES_QUICK, format_sets=FORMAT_SETS_QUICK,
                 N0=4, A1=(3, 4), A2_inferred="edge",
                 A2=[((2, 2), 3, "all"), ((2, 3), 2, "edge"), ((3, 2), 2, "edge")],
